@@ -434,3 +434,32 @@ class RmEltoritoDetachEntry(Base):
 
     def observe(self, c, a, out):
         return {'kind': out.kind, 'n': len(a.ino.linked_records), 'table': a.ino.boot_info_table is None}
+
+
+@contract
+class BootInfoTableParse(Base):
+    """C11/C05: parse() recognises exactly the tables that point at this PVD and this file's sector - in particular every
+    table the library itself wrote (whatever length and checksum it records) - and then re-records the same 56 bytes."""
+    target = BIT + '.parse'
+
+    def setup(self, c):
+        a = c.a
+        a.pvd_extent = c.int('pvd_extent', 0, (1 << 32) - 1)
+        a.file_extent = c.int('file_extent', 0, (1 << 32) - 1)
+        a.data = c.bytes('table', 16)
+        a.vd = c.obj('pycdlib.headervd.PrimaryOrSupplementaryVD', _initialized=True, new_extent_loc=a.pvd_extent, orig_extent_loc=None)
+        a.ino = c.obj('pycdlib.inode.Inode', _initialized=True, new_extent_loc=a.file_extent, orig_extent_loc=0,
+                      data_length=c.int('inode_data_length', 0, (1 << 32) - 1))
+        a.self = c.new(BIT)
+        return Call([a.vd, a.data, a.ino], self_obj=a.self)
+
+    def post(self, c, a, out):
+        d = V.items_of(a.data)
+        points_here = And(sx.le_int(d[0:4]) == a.pvd_extent, sx.le_int(d[4:8]) == a.file_extent)
+        s = a.self
+        res = out.result
+        cl = {'recognised-iff-it-points-at-this-pvd-and-file': Eq(res, True) if (not sx.is_sym(points_here) and points_here) else
+              (Eq(res, False) if not sx.is_sym(points_here) else sx.Iff(Eq(res, True), points_here))}
+        if res is True:
+            cl['fields'] = And(s.orig_len == sx.le_int(d[8:12]), s.csum == sx.le_int(d[12:16]), Eq(s._initialized, True))
+        return cl
